@@ -130,8 +130,13 @@ package decorator
 //@   let isParent = typeis(obj, *unstructured.Unstructured)
 //@   let p = unbox(obj, *unstructured.Unstructured)
 //@   at Add(q, item) [C14,C12]: kfErr == nil && typeis(item, string) && unbox(item, string) == key && (isParent ==> dcInterestedIn(c, p))
+//@   // "parents that neither match nor carry the finalizer are never queued" - also when the deletion arrives as a tombstone
+//@   at Add(q, item) [C14]: typeis(obj, cache.DeletedFinalStateUnknown) ==> dcInterestedIn(c, unbox(unbox(obj, cache.DeletedFinalStateUnknown).Obj, *unstructured.Unstructured))
+//@   let isTomb = typeis(obj, cache.DeletedFinalStateUnknown)
+//@   let tp = unbox(unbox(obj, cache.DeletedFinalStateUnknown).Obj, *unstructured.Unstructured)
 //@   ensures [C14] isParent && !dcInterestedIn(c, p) ==> !called(Add)
-//@   ensures [C14] (!isParent || dcInterestedIn(c, p)) ==> called(parentQueueKey) && (kfErr == nil ==> count(Add) == 1)
+//@   ensures [C14] isTomb && !dcInterestedIn(c, tp) ==> !called(Add)
+//@   ensures [C14] (isParent && dcInterestedIn(c, p)) || (isTomb && dcInterestedIn(c, tp)) ==> called(parentQueueKey) && (kfErr == nil ==> count(Add) == 1)
 
 //@ func decoratorController.onChildUpdate(c, old, cur) ()
 //@   requires validDC(c) && validDCInformers(c)
